@@ -75,6 +75,9 @@ class _M:
         self.miss += 1
         if self.spec.on_miss == 'none':
             return ('exc', 'KeyError')
+        if self.spec.on_miss == 'raises' and on_miss_raises(key):
+            self.on_miss_calls.append(key)
+            return ('exc', 'LookupError')        # the callback's own exception reaches the caller
         val = self.call_on_miss(key)
         self.setitem(key, val)
         return ('ok', val)
@@ -95,14 +98,14 @@ class _M:
 
     def get(self, key, default):
         r = self.getitem(key)
-        if r[0] == 'exc':
+        if r == ('exc', 'KeyError'):
             self.soft += 1
             return ('ok', default)
         return r
 
     def setdefault(self, key, default):
         r = self.getitem(key)
-        if r[0] == 'exc':
+        if r == ('exc', 'KeyError'):
             self.soft += 1
             self.setitem(key, default)
             return ('ok', default)
@@ -126,6 +129,15 @@ class _M:
         del self.items[i]
         self.view()
         return ('ok', v)
+
+
+def on_miss_raises(key):
+    """The 'raises' callback fails (LookupError) for odd ints and for the strings a, c, e."""
+    if isinstance(key, bool):
+        return False
+    if isinstance(key, int):
+        return key % 2 == 1
+    return key in ('a', 'c', 'e')
 
 
 def contents(state):
@@ -204,5 +216,6 @@ LOCK_FREE_READS = frozenset(['in', 'len', 'dict', 'keys'])
 
 #: exception types an operation can raise in *some* sequential state
 POSSIBLE_EXC = {
-    'get': {'KeyError'}, 'del': {'KeyError'}, 'pop': {'KeyError'}, 'popitem': {'KeyError'},
+    'get': {'KeyError', 'LookupError'}, 'del': {'KeyError'}, 'pop': {'KeyError'}, 'popitem': {'KeyError'},
+    'getd': {'LookupError'}, 'setdefault': {'LookupError'},
 }
